@@ -103,7 +103,16 @@
 (*     expects; slots are 8-byte, aligned, below the frame base;            *)
 (*   - no indirect calls / jumps; extern symbols are libc names with a      *)
 (*     function-signature stub and register parameters; one convention;     *)
-(*   - only f calls g, g calls no function ("two-function programs").       *)
+(*   - only f calls g, g calls no function ("two-function programs");       *)
+(*   - no deallocation hits an object whose id is not unique (an allocation *)
+(*     site passed again while its object exists: "we cannot distinguish    *)
+(*     different objects represented by the same ID", such ids are not      *)
+(*     marked) or the object that the releasing call itself names ("freed   *)
+(*     in the same call where it is created").                              *)
+(* NOT excluded: the target set of a pointer is the pointer inference's     *)
+(* union over all paths, so the documented path-insensitivity (pointer and  *)
+(* free correlated on different paths) is part of the rule, not of the      *)
+(* class boundary.                                                          *)
 (* Definitions only; spec/mc/MC_UafWalk.tla checks hand-derived             *)
 (* expectations, spec/trace/T_X06.tla binds recorded runs.                  *)
 (***************************************************************************)
@@ -384,8 +393,9 @@ UExt(C, ps, mm, j) ==
     IF Len(x.params) = 0 THEN [mm |-> mm, may |-> FALSE, must |-> FALSE, name |-> "CWE415"]
     ELSE LET v == ValOf(ps, Reg(ArgReg(x.params[1])))
              r == Free(mm, {i \in v.ids : Markable(ps, i)})
-         IN  [mm |-> [r.mm EXCEPT !.bad = @ \cup (IF v.u THEN {"untracked value passed to a deallocation symbol"} ELSE {})],
-              may |-> r.may, must |-> r.must, name |-> "CWE415"]
+             b == (IF v.u THEN {"untracked value passed to a deallocation symbol"} ELSE {})
+                  \cup (IF \E i \in v.ids : ~Markable(ps, i) THEN {"non-unique object freed"} ELSE {})
+         IN  [mm |-> [r.mm EXCEPT !.bad = @ \cup b], may |-> r.may, must |-> r.must, name |-> "CWE415"]
   ELSE LET r == Check(mm, UNION {ValOf(ps, Reg(ArgReg(x.params[k]))).ids : k \in DOMAIN x.params})
        IN  [mm |-> r.mm, may |-> r.may, must |-> r.must, name |-> "CWE416"]
 \* internal call: the parameters the callee dereferences are checked
@@ -400,9 +410,13 @@ URet(C, ps, mm, gm, gparams, callTid) ==
       canDmay(o) == \E p \in pp(o) : "D" \in gm.may[Par(p)]
       canDmust(o) == \E p \in pp(o) : "D" \in gm.may[Par(p)] /\ "F" \notin gm.may[Par(p)]
       canKeep(o) == \A p \in pp(o) : gm.may[Par(p)] \cap {"N", "F"} # {}
+      all == UNION {tgt(p) : p \in gparams}
+      b == (IF \E o \in all : canDmay(o) /\ ~Markable(ps, o) THEN {"non-unique object freed"} ELSE {})
+           \cup (IF canDmay(Obj(callTid)) /\ Obj(callTid) \in all THEN {"object freed by the call that names it"} ELSE {})
   IN  [mm EXCEPT
          !.may = [i \in DOMAIN @ |-> IF i \in objs THEN (IF canDmay(i) THEN {"D"} ELSE {}) \cup (IF canKeep(i) THEN @[i] ELSE {}) ELSE @[i]],
-         !.must = [i \in DOMAIN @ |-> IF i \in objs THEN (IF canDmust(i) THEN {"D"} ELSE {}) \cup (IF canKeep(i) \/ ~canDmust(i) THEN @[i] ELSE {}) ELSE @[i]]]
+         !.must = [i \in DOMAIN @ |-> IF i \in objs THEN (IF canDmust(i) THEN {"D"} ELSE {}) \cup (IF canKeep(i) \/ ~canDmust(i) THEN @[i] ELSE {}) ELSE @[i]],
+         !.bad = @ \cup b]
 
 \* PI = [F |-> states of the pointer inference, AT |-> def TID -> address targets, gparams, gderef : sub TID -> registers]
 \* G1 = the object states of a first pass without return edges (the callee's states are final there), or << >>
